@@ -35,6 +35,16 @@ CHECKS = {
          "with the OpcPackage operators, plus re-open facets (order, shapes, text, pictures, charts).",
     note="Trusted: TLC, zipfile/lxml projection, the facet reader (public read API on both sides). Bounded depth 3 (quick) / 4 (thorough) exhaustive per alphabet, simulation to depth 9-10.",
     technique="TLA+ history machine explored by TLC; histories replayed into the real library; saved packages validated by TLC"),
+ "C04": dict(
+    category="model_checking", design_ref="DESIGN.md §4 C04",
+    text="TextBody.tla: text as sequences of character tokens (15 classes x variants: NL, VT, TAB, CR, other C0, blanks, markup, astral, "
+         "C1, DEL, escape look-alikes); the documented translation as operators (FrameSplit, ParaSplit, Esc per level, readers); clauses "
+         "ReadBack, WhitespaceKept, ParaPerSegment, BreakPerBreak, KeepsProps, OthersKept, ReopenSameText, ReopenWhitespace. TLC enumerates "
+         "every string up to the length bound at the four levels (frame/cell/shape, paragraph, run) onto prior bodies (several paragraphs, "
+         "properties, fields, leading break) with re-open patterns, checks the Impl layer, emits scenarios; each is replayed on a real text "
+         "frame / table cell / shape, projected from the lxml tree plus the .text readers, and validated step by step by TLC.",
+    note="Trusted: TLC, the lxml projection and the character classifier (69 concrete representatives). TAB accepted kept or escaped (statement vs docstring). Bounded string length 3 (quick) / 3-5 (thorough), <= 3 re-open cycles.",
+    technique="TLA+ two-layer spec, TLC string/history enumeration, replay on the real library, TLC trace validation"),
  "C06": dict(
     category="model_checking", design_ref="DESIGN.md §4 C06",
     text="Same machine; the Impl layer transcribes the id allocators (max+1 / turbo cache, first-gap for groups and freeforms, slide-id "
@@ -44,6 +54,17 @@ CHECKS = {
          "and not reassigned while referenced, part names unique, slides named slide1..n once accessed, earlier lookups stable.",
     note="Trusted: TLC, the lxml-based observation (never via prs.slides). Known finding: turbo mode + group/freeform allocator collision (experimental feature).",
     technique="TLA+ allocator transcription checked by TLC + history replay + TLC trace validation on observed ids"),
+ "C10": dict(
+    category="model_checking", design_ref="DESIGN.md §4 C10",
+    text="ChildOrder.tla: Impl layer transcribes xmlchemy (first_child_found_in, insert_element_before, remove_all, get-or-add, change-to); "
+         "property layer = Ordered (schema slot ranks around the new child, judged on schema-permitted parents), AtMostOne, "
+         "GetOrAddIdempotent, RemoveRemovesAll, ChangeToLeavesExactlyOne. All constants re-extracted at every run: 196 tags / 156 classes / "
+         "282 declarations from the registry and generated-method closures; XSD content models flattened to slots with conservative rules. "
+         "MC_ChildOrder's Init is the quantifier (class x XSD type x child x sibling-context families, two-kind orderings, two steps deep; "
+         "thorough: every permitted subset for <= 12 slots). TLC prints every counterexample and transition; each transition is executed "
+         "on a real element with the real generated method and TLC validates the observed sequence.",
+    note="Trusted: TLC, the XSDs in /repo/spec, lxml iteration. The slot model only under-constrains. Declarations nothing in src/pptx names are reported as latent NOTEs. Hand-written append/addprevious sites are listed, not judged here (C03).",
+    technique="extracted-constant TLA+ model, TLC exhaustive Impl-vs-property check over schema-derived contexts, transition-complete replay, TLC trace validation"),
  "C11": dict(
     category="exploration", design_ref="DESIGN.md §4 C11",
     text="SimpleTypes.tla: for each of 65 (python simple type, XSD type) pairs extracted at run time from the 159 attribute declarations and "
@@ -113,6 +134,16 @@ CHECKS = {
     note="Trusted: TLC, Apalache (inductive step on the transcription; bound to the code by zero drift in conformance). "
          "Frames read from a:xfrm plus public readers. Empty sub-groups may or may not contribute their (0,0,0,0) frame (unspecified).",
     technique="TLA+ two-layer state machines + TLC exhaustive refinement + transition-complete replay + TLC trace validation; Apalache inductive step"),
+ "C18": dict(
+    category="model_checking", design_ref="DESIGN.md §4 C18",
+    text="CoreProps.tla: state of the 15 core properties, W3CDTF specified in TLA+ (ToUtc with days-from-civil calendar arithmetic, every "
+         "granularity, fractions, Z and numeric offsets to +-14:00), ten named clauses (Outcome, RejectedUnchanged, ReadStr, ReadDate, "
+         "ReadRev, OthersKept, DefaultPart, ReopenIdentity, XsdValid, LexUtc) and the Impl layer. TLC enumerates every history of <= 2 "
+         "(quick) / <= 3 (thorough) assignments over all properties x length classes {0,1,254,255,256} x character mixes, boundary "
+         "datetimes, refused values, lexical forms at day/month/leap/year boundaries, with 0-2 re-opens from an absent, empty and template "
+         "part; each history is replayed on a real package and TLC validates every observed step (XSD bit from lxml XMLSchema).",
+    note="Trusted: TLC; lxml XMLSchema with local Dublin Core / xml.xsd stub schemas (/verif/schemas); ToUtc cross-checked against Python's calendar on every run.",
+    technique="TLA+/TLC history enumeration + function specification (W3CDTF), replay, TLC trace validation with named clauses"),
  "C19": dict(
     category="model_checking", design_ref="DESIGN.md §4 C19",
     text="PackUri.tla defines part-name arithmetic (Dir/Filename/Ext/Idx/Member/RelsUri, RFC 3986 Resolve, RelRef); TLC proves the "
